@@ -17,7 +17,7 @@ def run(ctx):
     ctx.build_harness()
     ctx.tlc_must_pass("MC_Encoder", "MC_Encoder", timeout=900)
     ctx.tlc_must_pass("MC_Decoder", "MC_Decoder_q", timeout=900)
-    fams = ["wellformed", "runs", "open", "converse", "reuse"]
+    fams = ["wellformed", "runs", "longruns", "zerofirst", "open", "converse", "reuse"]
     r = enccheck.run_enc_traces(ctx, fams, 400 if quick else 40000, ["err", "mode"], want=("rt", "dec"))
     for kind, ds in r["diags"].items():
         for d in ds:
